@@ -16,6 +16,7 @@ _cache = {}
 
 # units whose obligations have committed replay scripts (`<script> <compiler-binary>`: exit 1 = the defect shows on the real code)
 COMPILER_REPLAYS = {
+    "u_anf": ["replay/c09/anf_order.sh"],
     "u_diagord": ["replay/c13/missing_methods/run.sh", "replay/c13/unknown_fields/run.sh"],
     "u_occurs": ["replay/c04/occurs/run.sh"],
     "u_tmono": ["replay/c07/run.sh", "replay/c04/recursive_generic/run.sh", "replay/c07/field_type_app.sh"],
